@@ -460,40 +460,8 @@ func ruleC04MapKeys(p *Prog, a *Anchors, r *Report, rule string) {
 				}
 				n++
 				key := p.FuncName(f) + ":MapKeys"
-				// values derived from the key slice (conversions to a named sortable type, interfaces of it)
-				derived := map[ssa.Value]bool{c: true}
-				changed := true
-				for changed {
-					changed = false
-					for v := range derived {
-						for _, u := range refs(v) {
-							switch x := u.(type) {
-							case *ssa.ChangeType, *ssa.Convert, *ssa.MakeInterface, *ssa.Phi:
-								if !derived[x.(ssa.Value)] {
-									derived[x.(ssa.Value)] = true
-									changed = true
-								}
-							case *ssa.Call:
-								// sort.Reverse(keys) wraps them
-								if x.Common().StaticCallee() != nil && p.extName(x.Common().StaticCallee()) == "sort.Reverse" && !derived[x] {
-									derived[x] = true
-									changed = true
-								}
-							}
-						}
-					}
-				}
-				isSort := func(x ssa.Instruction) bool {
-					sc, ok := x.(*ssa.Call)
-					if !ok || sc.Common().StaticCallee() == nil {
-						return false
-					}
-					nm := p.extName(sc.Common().StaticCallee())
-					if nm != "sort.Sort" && nm != "sort.Stable" && nm != "sort.Slice" && nm != "sort.SliceStable" && nm != "slices.SortFunc" {
-						return false
-					}
-					return derived[sc.Common().Args[0]]
-				}
+				derived := derivedSortable(p, c)
+				isSort := func(x ssa.Instruction) bool { return sortsDerived(p, x, derived, 2) }
 				// walks: IndexAddr / Range / len-bounded loops over a derived value
 				bad := ""
 				nWalks := 0
@@ -531,4 +499,66 @@ func ruleC04MapKeys(p *Prog, a *Anchors, r *Report, rule string) {
 	if n == 0 {
 		r.Trivial("none", "-", "no MapKeys call in execution-reachable code")
 	}
+}
+
+// derivedSortable: values derived from a slice (conversions to a named sortable type, interfaces of it, sort.Reverse of it)
+func derivedSortable(p *Prog, root ssa.Value) map[ssa.Value]bool {
+	derived := map[ssa.Value]bool{root: true}
+	changed := true
+	for changed {
+		changed = false
+		for v := range derived {
+			for _, u := range refs(v) {
+				switch x := u.(type) {
+				case *ssa.ChangeType, *ssa.Convert, *ssa.MakeInterface, *ssa.Phi:
+					if !derived[x.(ssa.Value)] {
+						derived[x.(ssa.Value)] = true
+						changed = true
+					}
+				case *ssa.Call:
+					// sort.Reverse(keys) wraps them
+					if x.Common().StaticCallee() != nil && p.extName(x.Common().StaticCallee()) == "sort.Reverse" && !derived[x] {
+						derived[x] = true
+						changed = true
+					}
+				}
+			}
+		}
+	}
+	return derived
+}
+
+// sortsDerived: x sorts one of the derived values: a call of a sort function of the library on it, or of a package
+// helper that sorts the parameter it arrives in on every path to its returns.
+func sortsDerived(p *Prog, x ssa.Instruction, derived map[ssa.Value]bool, depth int) bool {
+	sc, ok := x.(*ssa.Call)
+	if !ok || sc.Common().StaticCallee() == nil {
+		return false
+	}
+	callee := sc.Common().StaticCallee()
+	switch p.extName(callee) {
+	case "sort.Sort", "sort.Stable", "sort.Slice", "sort.SliceStable", "slices.SortFunc":
+		return derived[sc.Common().Args[0]]
+	}
+	if depth == 0 || !p.InPkg(callee) || callee.Blocks == nil || sc.Common().IsInvoke() {
+		return false
+	}
+	args := callArgs(sc.Common())
+	for i, a := range args {
+		if !derived[a] || i >= len(callee.Params) {
+			continue
+		}
+		inner := derivedSortable(p, callee.Params[i])
+		all := true
+		rets := returnsOf(callee)
+		for _, ret := range rets {
+			if !MustPassFrom(callee.Blocks[0], 0, ret, func(y ssa.Instruction) bool { return sortsDerived(p, y, inner, depth-1) }) {
+				all = false
+			}
+		}
+		if all && len(rets) > 0 {
+			return true
+		}
+	}
+	return false
 }
